@@ -26,6 +26,29 @@ def run(ctx: Ctx, chk) -> None:
     chk.run_rule(absorb1, ctx)
     chk.run_rule(override1, ctx)
     chk.run_rule(resync1, ctx)
+    chk.run_rule(close_graceful, ctx)
+
+
+def close_graceful(ctx: Ctx, chk) -> None:
+    rule = "CLOSE-GRACEFUL"
+    chk.rule(rule, "bytes handed to a stream are only ever discarded by the peer, never by the transport itself: the stream transports end a connection through writer.close() + wait_closed() (which flush) - no transport.abort() and no SO_LINGER with a zero timeout (close then resets the connection and the kernel drops every byte not yet sent, although write() returned normally)")
+    n = 0
+    for f in ctx.prog.all_functions():
+        if not f.module.name.startswith("aiomysensors.transport") or f.module.name.endswith(".mqtt"):
+            continue
+        n += 1
+        for node in ctx.own_nodes(f):
+            if not (isinstance(node, ast.Call) and isinstance(node.func, ast.Attribute)):
+                continue
+            if node.func.attr == "abort" and not node.args:
+                chk.instance(rule)
+                chk.refute(rule, fkey(f, node) + "::abort", f"`{norm(node)}` closes the connection without flushing: bytes of earlier writes that are still buffered are never put on the stream", ctx.loc(f, node))
+            if node.func.attr == "setsockopt" and any("SO_LINGER" in norm(a) for a in node.args):
+                chk.instance(rule)
+                chk.refute(rule, fkey(f, node) + "::SO_LINGER", f"`{norm(node)[:80]}` sets SO_LINGER on the connection: with a zero timeout close() resets the connection and the kernel discards the bytes it has not sent yet - lines for which write() returned normally never reach the peer", ctx.loc(f, node))
+    chk.instance(rule)
+    chk.ok(rule, "transport-package::close-discipline", f"{n} functions of the stream transport modules scanned for abort() / SO_LINGER", "src/aiomysensors/transport/__init__.py")
+    chk.floor(rule, "functions of the stream transport modules", n, 8)
 
 
 def eea_stream(ctx: Ctx, chk) -> None:
